@@ -159,6 +159,10 @@ static void gamma_grid(unsigned long long& unit)
 	std::vector<double> xs;
 	for(int k = 1; k <= 1600; k++) xs.push_back(k / 8.0);
 	for(int k = 0; k <= 400; k++) xs.push_back(std::pow(10.0, -6 + k / 40.0));
+	// the whole positive range: tiny arguments (Gamma ~ 1/x - gamma_E) and huge ones (Stirling regime)
+	for(int k = 0; k <= 1176; k++) xs.push_back(std::pow(10.0, -300 + k / 4.0));	  // 1e-300 .. 1e-6
+	for(int k = 0; k <= 80; k++) xs.push_back(std::pow(10.0, -12 + k / 20.0));		  // dense in 1e-12 .. 1e-8
+	for(int k = 17; k <= 1200; k++) xs.push_back(std::pow(10.0, k / 4.0));			  // 1.8e4 .. 1e300
 	long long cases = 0;
 	for(size_t i = 0; i < xs.size(); i++)
 	{
@@ -174,7 +178,7 @@ static void gamma_grid(unsigned long long& unit)
 		if(x + 1 <= 170)
 		{
 			double g = Gamma(x), g1 = Gamma(x + 1);
-			ld amp = 32 * (ld)U_ * (1 + fabsl(lgammal((ld)x + 1)));
+			ld amp = 32 * (ld)U_ * (1 + std::max(fabsl(lgammal((ld)x + 1)), fabsl(refv)));	// Gamma = exp(GammaLn): the rounding of the logarithm is amplified by its size
 			if(!(fabsl(g1 - (ld)x * g) <= amp * fabsl(g1))) fail("gammaln", key, "gamma_recurrence_violated", "Gamma(x+1) = " + mc::dec(g1) + " x*Gamma(x) = " + mc::dec(x * g));
 			ld gr = expl(refv);
 			if(!(fabsl(g - gr) <= amp * gr)) fail("gammaln", key, "gamma_inaccurate", "Gamma = " + mc::dec(g) + " reference " + mc::dec((double)gr));
@@ -291,7 +295,7 @@ int main(int argc, char** argv)
 	mc::init(argc, argv);
 	if(mc::ctx().replay) { printf("%s\n(no single-case replay for this part; use ./vcheck --replay <file>, which re-runs the enumeration for this key)\n", mc::ctx().replay_case.c_str()); return 0; }
 	silence();
-	mc::bound("rule", "M1: every reachable state of the global factorial memo (171 lengths) x every letter (171 Factorial + 144 Binomial_Coefficient calls), oracle = fresh memo; M3: all 0<=k<=n<=400, GammaLn/Gamma on 2001 points, P/Q on an (a,x) grid with both sides of x=a+1 and a=100, inverses on 60 probabilities x the a grid; references: Pascal triangle, lgammal, positive series + Lentz continued fraction (must agree)");
+	mc::bound("rule", "M1: every reachable state of the global factorial memo (171 lengths) x every letter (171 Factorial + 144 Binomial_Coefficient calls), oracle = fresh memo; M3: all 0<=k<=n<=400, GammaLn/Gamma on 4443 points from 1e-300 to 1e300, P/Q on an (a,x) grid with both sides of x=a+1 and a=100, inverses on 60 probabilities x the a grid; references: Pascal triangle, lgammal, positive series + Lentz continued fraction (must agree)");
 	unsigned long long unit = 0;
 	if(mc::shard0()) memo_bfs();
 	binomials(unit);
